@@ -15,7 +15,9 @@ From Coq Require Import ZArith List Bool Permutation.
 From CSS Require Import Base.PyList Gen.Prelude Gen.Compositions Count.CompositionsSpec
                         Count.ObjectsModel Count.ObjectsLists Count.ObjectsProofs
                         Count.ObjectsForms Count.ObjectsSpec Count.ObjectsExample
-                        Count.ObjectsCountModel Count.ObjectsCount.
+                        Count.ObjectsCountModel Count.ObjectsCount
+                        Count.ObjectsTermsModel Count.ObjectsTermsAlgebra Count.ObjectsTermsSpec
+                        Count.ObjectsReverse Count.ObjectsVerified.
 Import ListNotations.
 Open Scope Z_scope.
 
@@ -143,6 +145,60 @@ Proof.
   destruct (H0 f Hf empty_cache (Inv_empty size In_cls par) p) as (s' & l & E & _ & _ & Hlen).
   exists s', l. split; [assumption|]. rewrite Hcount. symmetry. assumption.
 Qed.
+
+(* ... and WITHOUT that assumption.  The counting side of the specification is transcribed in
+   Count/ObjectsTermsModel.v: Rule._ensure_level / VerificationRule._ensure_level through the
+   terms caches, DisjointUnion.get_terms / CartesianProduct.get_terms (the rules read the same
+   children, size bounds and parameter maps as on the objects side: tspec), and a verification
+   strategy's get_terms is its own user code (vterms c n = strategy.get_terms(class c, n)),
+   constrained by the contract that it is a Counter counting what the strategy's get_objects lists.
+   `TInv t`: every cached terms level is a Counter that counts the objects of its class and size
+   (true of the empty caches and kept by every call).
+   Then, for a closed one-rule-per-class productive specification under the bijection contracts,
+   from ANY consistent terms caches and ANY consistent objects caches (the two sets of caches are
+   independent in the code: counting may have run further than generating or the reverse) and with
+   enough recursion depth, the number count_objects_of_size(n, **params) returns is the length of
+   the list generate_objects_of_size(n, **params) returns, and both caches stay consistent. *)
+Variable vterms : nat -> Z -> terms.
+Hypothesis verified_counts : forall c tbl, spec c = Some (RVerified tbl) -> forall n, 0 <= n ->
+  keys_ok (vterms c n) /\ forall p, counter_get (vterms c n) p = zlen (dict_get (tbl n) p).
+
+Theorem C07_count_eq_length : forall c n,
+  spec c <> None -> 0 <= n ->
+  exists f0, forall f, (f0 <= f)%nat ->
+    forall t, TInv size In_cls par t -> forall s, Inv size In_cls par s -> forall p,
+    exists t' k s' l, count_objects_of_size (tspec_of spec vterms) f t c n p = Some (t', k) /\
+                      generate_objects_of_size spec f s c n p = Some (s', l) /\
+                      k = zlen l /\ TInv size In_cls par t' /\ Inv size In_cls par s'.
+Proof. intros. eapply count_eq_length; eauto. Qed.
+
+(* the count alone: it is the length of EVERY duplicate-free enumeration of the objects of the
+   class with that size and parameters (C01's conclusion, here derived from the bijection
+   contracts instead of assumed) *)
+Theorem C07_count_exact : forall c n,
+  spec c <> None -> 0 <= n ->
+  exists f0, forall f, (f0 <= f)%nat -> forall t, TInv size In_cls par t -> forall p,
+    exists t' k, count_objects_of_size (tspec_of spec vterms) f t c n p = Some (t', k) /\
+                 TInv size In_cls par t' /\
+                 forall l, NoDup l -> (forall o, In o l <-> isobj c n p o) -> k = zlen l.
+Proof. intros. eapply count_exact; eauto. Qed.
+
+(* one level of the terms cache, per constructor: get_terms fed with Counters that count the
+   children's objects returns a Counter that counts the parent's (the inductive step, now stated
+   on what the children's RULES computed, not on terms_of of their dictionaries) *)
+Theorem C07_union_terms_level : forall c kids maps fwd bwd n (ts : list terms),
+  union_contract size In_cls par c kids maps fwd bwd ->
+  Forall2 (tgoodks size In_cls par) (map (fun k => (k, n)) kids) ts ->
+  tgood size In_cls par c n (union_terms maps ts).
+Proof. intros. eapply union_level_tgood; eassumption. Qed.
+
+Theorem C07_product_terms_level : forall c kids mins maxs maps fwd bwd n (pc : list (list terms)),
+  product_contract size In_cls par c kids maps fwd bwd ->
+  bounds_ok size In_cls kids mins maxs ->
+  Forall2 (fun sizes ts => Forall2 (tgoodks size In_cls par) (combine kids sizes) ts)
+          (compositions n (zlen kids) mins maxs) pc ->
+  tgood size In_cls par c n (product_terms maps pc).
+Proof. intros. eapply product_level_tgood; eassumption. Qed.
 End Whole.
 
 (* ---------------------------------------------------------------- round trips of the rule forms *)
@@ -185,12 +241,81 @@ Theorem C07_roundtrip_path : forall A fbs C, chain In_cls A fbs C ->
             path_backward (map snd fbs) [Some z] = Some [o].
 Proof. intros. eapply path_roundtrip; eassumption. Qed.
 
+(* C07_roundtrip_reverse above passes `true` for the flag
+   len(original_rule.non_empty_children()) == 1 that ReverseRule.forward_map/backward_map test
+   before doing anything, and needs no hypothesis that the other children are empty: it IS true as
+   stated (the round trip y -> (o, None, ..) -> y of an object y of child j follows from the union
+   contract alone), but (a) it does not say when the flag is `true`, and (b) it is only one
+   direction.  The three theorems below close both: the flag COMPUTED from truthful is_empty answers
+   is `true` exactly when the other children are empty (given child j has an object); with the flag
+   false both maps raise; and with the other children empty the reverse rule is a bijection in BOTH
+   directions, sizes kept - the direction o -> y -> o is the one Rule._ensure_level_objects uses
+   (backward_map on the objects of the reverse rule's child c) and it fails without others_empty
+   (applied example C07_reverse_needs_others_empty below). *)
+Theorem C07_reverse_flag : forall c kids maps fwd bwd j kj (nonempty : nat -> bool),
+  union_contract size In_cls par c kids maps fwd bwd ->
+  nth_error kids j = Some kj ->
+  (forall k, nonempty k = true <-> exists y, In_cls k y) ->
+  (exists y, In_cls kj y) ->
+  (one_nonempty_flag nonempty kids = true <->
+   forall i k y, nth_error kids i = Some k -> In_cls k y -> i = j).
+Proof. intros. eapply reverse_flag; eassumption. Qed.
+
+Theorem C07_reverse_refuses : forall (fwd : obj -> subobj obj) (bwd : subobj obj -> list obj) (kids : list nat) j y t,
+  rev_forward (fun t => Some (bwd t)) j (length kids) false y = None /\
+  rev_backward (fun o => Some (fwd o)) j false t = None.
+Proof. intros. split; reflexivity. Qed.
+
+Theorem C07_reverse_bijection : forall c kids maps fwd bwd j kj (nonempty : nat -> bool),
+  union_contract size In_cls par c kids maps fwd bwd ->
+  nth_error kids j = Some kj ->
+  (forall k, nonempty k = true <-> exists y, In_cls k y) ->
+  (forall i k y, nth_error kids i = Some k -> In_cls k y -> i = j) ->
+  (exists y, In_cls kj y) ->
+  let flag := one_nonempty_flag nonempty kids in
+  let K := length kids in
+  (forall y, In_cls kj y ->
+     exists o, In_cls c o /\
+       rev_forward (fun t => Some (bwd t)) j K flag y = Some (Some o :: repeat None (K - 1)) /\
+       rev_backward (fun o => Some (fwd o)) j flag (Some o :: repeat None (K - 1)) = Some [y]) /\
+  (forall o, In_cls c o ->
+     exists y, In_cls kj y /\ size y = size o /\
+       rev_backward (fun o => Some (fwd o)) j flag (Some o :: repeat None (K - 1)) = Some [y] /\
+       rev_forward (fun t => Some (bwd t)) j K flag y = Some (Some o :: repeat None (K - 1))).
+Proof. intros. eapply reverse_bijection; eassumption. Qed.
+
 Theorem C07_roundtrip_plain_single : forall c k maps fwd bwd,
   union_contract size In_cls par c [k] maps fwd bwd ->
   link In_cls c k (fun o => Some (fwd o)) (fun t => Some (bwd t)).
 Proof. intros. eapply plain_single_link; eassumption. Qed.
 
 End C07.
+
+(* ---------------------------------------------------------------- the cache of a verification rule *)
+(* VerificationRule._ensure_level_objects: a request for size n appends to the cache of that class
+   exactly strategy.get_objects(class, k) for k = len(cache), .., n, in that order, and touches no
+   other cache - for EVERY order of requests and with no hypothesis on the specification *)
+Theorem C07_verified_cache_append : forall {obj} (spec : nat -> option (rule obj)) c tbl,
+  spec c = Some (RVerified tbl) ->
+  forall f s n s', ensure spec f s c n = Some s' ->
+    (forall c', c' <> c -> s' c' = s c') /\ s' c = s c ++ new_levels tbl (clen s c) n.
+Proof. intros. eapply verified_ensure; eassumption. Qed.
+
+(* hence level k of the cache holds strategy.get_objects(class, k): the invariant `vcons`
+   (true of the empty cache) is kept by every request, whatever sizes were asked before *)
+Theorem C07_verified_cache_levels : forall {obj} (spec : nat -> option (rule obj)) c tbl,
+  spec c = Some (RVerified tbl) ->
+  forall f s n s', vcons c tbl s -> ensure spec f s c n = Some s' ->
+    vcons c tbl s' /\ (0 <= n -> n < clen s' c /\ cget s' c n = tbl n).
+Proof. intros. eapply verified_levels; eassumption. Qed.
+
+(* and get_objects(n) of the verification rule answers strategy.get_objects(class, n) *)
+Theorem C07_verified_get_objects : forall {obj} (spec : nat -> option (rule obj)) c tbl,
+  spec c = Some (RVerified tbl) ->
+  forall s n, vcons c tbl s -> 0 <= n ->
+  forall f, (Z.to_nat (n + 1 - clen s c) + 1 <= f)%nat ->
+  exists s', get_objects spec f s c n = Some (s', tbl n) /\ vcons c tbl s'.
+Proof. intros. eapply verified_get_objects; eassumption. Qed.
 
 (* non-vacuity: the specification  0 -> 1 + 2,  2 -> 3 x 0,  1 and 3 atoms  (words over one letter,
    Count/ObjectsExample.v) satisfies every hypothesis of the end-to-end theorem - contracts of a union and
@@ -788,6 +913,261 @@ Example C07_roundtrip_values :
   path_backward (map snd bw_path) [Some [false; false; true]] = Some [[true; false; false]].
 Proof. vm_compute. repeat split; reflexivity. Qed.
 
+(* ---- count == number generated, through the terms caches of the whole specification ---- *)
+(* the verification strategies' get_terms tables of the universe: the atoms count their object *)
+Definition bw_vterms (c : nat) (n : Z) : terms :=
+  match bw_spec c with Some (RVerified tbl) => terms_of (tbl n) | _ => [] end.
+Lemma bw_vterms_ok : forall c tbl, bw_spec c = Some (RVerified tbl) -> forall n, 0 <= n ->
+  keys_ok (bw_vterms c n) /\ forall p, counter_get (bw_vterms c n) p = zlen (dict_get (tbl n) p).
+Proof.
+  intros c tbl H n Hn. unfold bw_vterms. rewrite H. split.
+  - apply keys_terms_of. apply (bw_contracts c _ H n Hn).
+  - intros p. apply counter_get_terms_of.
+Qed.
+
+(* covers C07_count_eq_length: classes 0 and 8, from any consistent caches on both sides *)
+Example C07_count_eq_length_nonvacuous :
+  forall c, (c = 0%nat \/ c = 8%nat) ->
+  exists f0, forall f, (f0 <= f)%nat ->
+    forall t, TInv bw_size bw_in bw_par t -> forall s, Inv bw_size bw_in bw_par s -> forall p,
+    exists t' k s' l, count_objects_of_size (tspec_of bw_spec bw_vterms) f t c 3 p = Some (t', k) /\
+                      generate_objects_of_size bw_spec f s c 3 p = Some (s', l) /\
+                      k = zlen l /\ TInv bw_size bw_in bw_par t' /\ Inv bw_size bw_in bw_par s'.
+Proof.
+  intros c Hc.
+  apply (C07_count_eq_length bw_size bw_in bw_par bw_spec bw_rank bw_contracts bw_closed bw_rank_reads
+           bw_rank_mono bw_vterms bw_vterms_ok c 3); [destruct Hc as [->| ->]; discriminate|lia].
+Qed.
+(* ... and the model run: the counts are 3, 1, 0 (several objects per parameter value, a parameter
+   value with none), equal to the lengths of the generated lists; class 8 counts the OTHER statistic;
+   too small a recursion depth gives no count *)
+Example C07_count_eq_length_value :
+  (match count_objects_of_size (tspec_of bw_spec bw_vterms) 60 empty_tcache 0%nat 3 [2],
+         generate_objects_of_size bw_spec 60 empty_cache 0%nat 3 [2] with
+   | Some (_, k), Some (_, l) => k = 3 /\ k = zlen l | _, _ => False end) /\
+  (match count_objects_of_size (tspec_of bw_spec bw_vterms) 60 empty_tcache 0%nat 3 [3] with
+   | Some (_, k) => k = 1 | None => False end) /\
+  (match count_objects_of_size (tspec_of bw_spec bw_vterms) 60 empty_tcache 0%nat 3 [2; 0] with
+   | Some (_, k) => k = 0 | None => False end) /\
+  (match count_objects_of_size (tspec_of bw_spec bw_vterms) 60 empty_tcache 8%nat 3 [1] with
+   | Some (_, k) => k = 3 | None => False end) /\
+  (match count_objects_of_size (tspec_of bw_spec bw_vterms) 60 empty_tcache 0%nat 4 [2] with
+   | Some (_, k) => k = 6 | None => False end) /\
+  count_objects_of_size (tspec_of bw_spec bw_vterms) 3 empty_tcache 0%nat 3 [2] = None.
+Proof. vm_compute. repeat split; reflexivity. Qed.
+(* the hypothesis TInv is met by NON-EMPTY reached states, independent of the objects caches:
+   counting ran to size 4 first (five cached levels), generation starts from empty caches *)
+Example C07_count_eq_length_from_reached_state :
+  exists f t1 k1 t2 k s2 l,
+    count_objects_of_size (tspec_of bw_spec bw_vterms) f empty_tcache 8%nat 3 [1] = Some (t1, k1) /\
+    TInv bw_size bw_in bw_par t1 /\
+    count_objects_of_size (tspec_of bw_spec bw_vterms) f t1 0%nat 3 [2] = Some (t2, k) /\
+    generate_objects_of_size bw_spec f empty_cache 0%nat 3 [2] = Some (s2, l) /\ k = zlen l.
+Proof.
+  destruct (C07_count_eq_length_nonvacuous 8%nat (or_intror eq_refl)) as [fa Ha].
+  destruct (C07_count_eq_length_nonvacuous 0%nat (or_introl eq_refl)) as [fb Hb].
+  destruct (Ha (Nat.max fa fb) (Nat.le_max_l _ _) empty_tcache (TInv_empty bw_size bw_in bw_par)
+               empty_cache (Inv_empty bw_size bw_in bw_par) [1]) as (t1 & k1 & _ & _ & E1 & _ & _ & I1 & _).
+  destruct (Hb (Nat.max fa fb) (Nat.le_max_r _ _) t1 I1 empty_cache (Inv_empty bw_size bw_in bw_par) [2])
+    as (t2 & k & s2 & l & E2 & E3 & Hk & _).
+  exists (Nat.max fa fb), t1, k1, t2, k, s2, l. auto.
+Qed.
+Example C07_count_reached_state_value :
+  match count_objects_of_size (tspec_of bw_spec bw_vterms) 60 empty_tcache 8%nat 4 [1] with
+  | Some (t1, k1) =>
+      k1 = 4 /\ tclen t1 0%nat = 5 /\ tclen t1 2%nat = 5 /\
+      match count_objects_of_size (tspec_of bw_spec bw_vterms) 60 t1 0%nat 3 [2] with
+      | Some (_, k) => k = 3 | None => False end
+  | None => False
+  end.
+Proof. vm_compute. repeat split; reflexivity. Qed.
+(* the contract of the verification strategies' get_terms is not decorative: an atom whose
+   get_terms counts 2 although its get_objects lists one object makes the count differ from the
+   number generated (the model follows what the tables say) *)
+Definition bw_bad_vterms (c : nat) (n : Z) : terms :=
+  match c with 5%nat => if n =? 1 then [([1], 2)] else [] | _ => bw_vterms c n end.
+Example C07_count_eq_length_needs_verified_counts :
+  match count_objects_of_size (tspec_of bw_spec bw_bad_vterms) 60 empty_tcache 0%nat 3 [2],
+        generate_objects_of_size bw_spec 60 empty_cache 0%nat 3 [2] with
+  | Some (_, k), Some (_, l) => k = 12 /\ zlen l = 3 | _, _ => False end.
+Proof. vm_compute. repeat split; reflexivity. Qed.
+(* covers C07_count_exact against the independent enumeration bw_enum *)
+Example C07_count_exact_nonvacuous :
+  exists f0, forall f, (f0 <= f)%nat -> forall p,
+    exists t' k, count_objects_of_size (tspec_of bw_spec bw_vterms) f empty_tcache 0%nat 3 p = Some (t', k) /\
+                 k = zlen (bw_enum p).
+Proof.
+  destruct (C07_count_exact bw_size bw_in bw_par bw_spec bw_rank bw_contracts bw_closed bw_rank_reads
+              bw_rank_mono bw_vterms bw_vterms_ok 0%nat 3 ltac:(discriminate) ltac:(lia)) as [f0 H0].
+  exists f0. intros f Hf p.
+  destruct (H0 f Hf empty_tcache (TInv_empty bw_size bw_in bw_par) p) as (t' & k & E & _ & Hk).
+  exists t', k. split; [assumption|]. destruct (bw_enum_spec p) as [Hnd Hm]. apply Hk; assumption.
+Qed.
+(* covers C07_union_terms_level / C07_product_terms_level: fed with Counters that are NOT terms_of
+   of the dictionaries (another key order, a zero entry) but count the same *)
+Lemma bw_tgood_of (c : nat) n (t : terms) (d : objects (list bool)) :
+  keys_ok t -> bw_good c n d -> (forall p, counter_get t p = zlen (dict_get d p)) ->
+  tgood bw_size bw_in bw_par c n t.
+Proof. intros Hk Hg He. split; [assumption|]. exists d. split; assumption. Qed.
+Lemma bw_counts_pointwise (t : terms) (d : objects (list bool)) (ks : list params) :
+  (forall p, In p (map fst t) \/ In p (map fst d) -> In p ks) ->
+  Forall (fun p => counter_get t p = zlen (dict_get d p)) ks ->
+  forall p, counter_get t p = zlen (dict_get d p).
+Proof.
+  intros Hks Hall p.
+  destruct (in_dec (list_eq_dec Z.eq_dec) p ks) as [Hin|Hnin].
+  - rewrite Forall_forall in Hall. apply Hall. assumption.
+  - rewrite counter_get_notin by (intros H; apply Hnin, Hks; left; assumption).
+    rewrite dict_get_notin by (intros H; apply Hnin, Hks; right; assumption). reflexivity.
+Qed.
+Ltac bw_counts ks :=
+  apply (bw_counts_pointwise _ _ ks);
+  [ intros p Hp; simpl in Hp; simpl; tauto
+  | repeat constructor ].
+Definition bw_t2_2 : terms := [([1], 1); ([7], 0); ([0], 1)].
+Definition bw_t3_2 : terms := [([2], 1); ([1], 1)].
+Definition bw_t0_2 : terms := [([2], 1); ([0], 1); ([1], 2)].
+Example C07_union_terms_level_nonvacuous :
+  tgood bw_size bw_in bw_par 0%nat 2 (union_terms bw_maps3 [[]; bw_t2_2; bw_t3_2]).
+Proof.
+  apply (C07_union_terms_level bw_size bw_in bw_par 0%nat [1%nat; 2%nat; 3%nat] bw_maps3 bw_fwdU bw_bwdU 2
+           [[]; bw_t2_2; bw_t3_2] bw_union_contract).
+  constructor; [apply (bw_tgood_of 1%nat 2 [] []); [constructor|exact bw_d1_2_good|reflexivity]|].
+  constructor; [apply (bw_tgood_of 2%nat 2 bw_t2_2 bw_d2_2);
+                [repeat constructor; simpl; intuition discriminate|exact bw_d2_2_good|bw_counts [[1]; [7]; [0]]]|].
+  constructor; [apply (bw_tgood_of 3%nat 2 bw_t3_2 bw_d3_2);
+                [repeat constructor; simpl; intuition discriminate|exact bw_d3_2_good|bw_counts [[2]; [1]]]|].
+  constructor.
+Qed.
+Example C07_product_terms_level_nonvacuous :
+  tgood bw_size bw_in bw_par 3%nat 3 (product_terms [pid; pid] [[[([1], 1)]; bw_t0_2]]).
+Proof.
+  refine (C07_product_terms_level bw_size bw_in bw_par 3%nat [5%nat; 0%nat] [1; 0] [Some 1; None] [pid; pid]
+            bw_fwdP bw_bwdP 3 [[[([1], 1)]; bw_t0_2]]
+            (bw_product_contract true 3%nat 5%nat _ _ _ _) (bw_bounds 5%nat true _) _);
+    try (intros w; simpl; try tauto; reflexivity).
+  change (compositions 3 (zlen [5%nat; 0%nat]) [1; 0] [Some 1; None]) with [[1; 2]].
+  constructor; [|constructor]. simpl.
+  constructor; [apply (bw_tgood_of 5%nat 1 [([1], 1)] [([1], [[true]])]);
+                [repeat constructor; simpl; intuition discriminate|exact bw_d5_1_good|bw_counts [[1]]]|].
+  constructor; [apply (bw_tgood_of 0%nat 2 bw_t0_2 bw_d0_2);
+                [repeat constructor; simpl; intuition discriminate|exact bw_d0_2_good|bw_counts [[2]; [0]; [1]]]|].
+  constructor.
+Qed.
+Example C07_terms_level_values :
+  counter_get (union_terms bw_maps3 [[]; bw_t2_2; bw_t3_2]) [1] = 2 /\
+  counter_get (product_terms [pid; pid] [[[([1], 1)]; bw_t0_2]]) [2] = 2.
+Proof. vm_compute. split; reflexivity. Qed.
+
+(* ---- ReverseRule: the flag, both directions, and why others_empty is needed ---- *)
+Definition bw_nonempty (k : nat) : bool :=
+  match k with 6%nat => false | 0%nat | 1%nat | 2%nat | 3%nat | 4%nat | 5%nat | 7%nat | 8%nat => true | _ => false end.
+Lemma bw_nonempty_spec : forall k, bw_nonempty k = true <-> exists y, bw_in k y.
+Proof.
+  intros k. destruct k as [|[|[|[|[|[|[|[|[|k]]]]]]]]]; simpl; split; intros H; try reflexivity;
+    try discriminate; try (now destruct H).
+  - exists []. exact I.
+  - exists []. reflexivity.
+  - exists [false]. exists []. reflexivity.
+  - exists [true]. exists []. reflexivity.
+  - exists [false]. reflexivity.
+  - exists [true]. reflexivity.
+  - exists []. exact I.
+  - exists []. exact I.
+Qed.
+(* covers C07_reverse_flag, both ways: rule 8 -> [6 (empty); 0] has the flag, rule 0 -> [1; 2; 3] not *)
+Example C07_reverse_flag_nonvacuous :
+  (one_nonempty_flag bw_nonempty [6%nat; 0%nat] = true <->
+   forall i k y, nth_error [6%nat; 0%nat] i = Some k -> bw_in k y -> i = 1%nat) /\
+  (one_nonempty_flag bw_nonempty [1%nat; 2%nat; 3%nat] = true <->
+   forall i k y, nth_error [1%nat; 2%nat; 3%nat] i = Some k -> bw_in k y -> i = 1%nat).
+Proof.
+  split.
+  - exact (C07_reverse_flag bw_size bw_in bw_par 8%nat [6%nat; 0%nat] [pid; pid] bw_fwd8 bw_bwd8 1%nat 0%nat
+             bw_nonempty bw_equiv_contract eq_refl bw_nonempty_spec (ex_intro _ [] I)).
+  - exact (C07_reverse_flag bw_size bw_in bw_par 0%nat [1%nat; 2%nat; 3%nat] bw_maps3 bw_fwdU bw_bwdU 1%nat 2%nat
+             bw_nonempty bw_union_contract eq_refl bw_nonempty_spec (ex_intro _ [false] (ex_intro _ [] eq_refl))).
+Qed.
+Example C07_reverse_flag_values :
+  one_nonempty_flag bw_nonempty [6%nat; 0%nat] = true /\
+  one_nonempty_flag bw_nonempty [1%nat; 2%nat; 3%nat] = false.
+Proof. vm_compute. split; reflexivity. Qed.
+(* covers C07_reverse_bijection on rule 8 -> [6; 0] *)
+Example C07_reverse_bijection_nonvacuous :
+  (forall y, bw_in 0%nat y ->
+     exists o, bw_in 8%nat o /\
+       rev_forward bw_pb8 1 2 (one_nonempty_flag bw_nonempty [6%nat; 0%nat]) y = Some [Some o; None] /\
+       rev_backward bw_pf8 1 (one_nonempty_flag bw_nonempty [6%nat; 0%nat]) [Some o; None] = Some [y]) /\
+  (forall o, bw_in 8%nat o ->
+     exists y, bw_in 0%nat y /\ bw_size y = bw_size o /\
+       rev_backward bw_pf8 1 (one_nonempty_flag bw_nonempty [6%nat; 0%nat]) [Some o; None] = Some [y] /\
+       rev_forward bw_pb8 1 2 (one_nonempty_flag bw_nonempty [6%nat; 0%nat]) y = Some [Some o; None]).
+Proof.
+  exact (C07_reverse_bijection bw_size bw_in bw_par 8%nat [6%nat; 0%nat] [pid; pid] bw_fwd8 bw_bwd8 1%nat 0%nat
+           bw_nonempty bw_equiv_contract eq_refl bw_nonempty_spec bw_others_empty (ex_intro _ [] I)).
+Qed.
+(* the discriminating example: rule 0 -> [1; 2; 3] has THREE non-empty children.
+   C07_roundtrip_reverse applies to it with j = 1 (its hypotheses do not mention the other
+   children) and its conclusion holds; but the computed flag is false, so the real maps refuse
+   (C07_reverse_refuses), and even with the flag forced to `true` the other direction fails: the
+   empty word, an object of class 0, has its forward image in child 0, and the reverse rule's
+   backward map raises on it - others_empty is what C07_reverse_bijection needs *)
+Example C07_reverse_needs_others_empty :
+  (exists o, bw_in 0%nat o /\
+     rev_forward (fun t => Some (bw_bwdU t)) 1 3 true [false; true] = Some [Some o; None; None] /\
+     rev_backward (fun o => Some (bw_fwdU o)) 1 true [Some o; None; None] = Some [[false; true]]) /\
+  bw_in 0%nat [] /\
+  rev_backward (fun o => Some (bw_fwdU o)) 1 true [Some []; None; None] = None /\
+  rev_forward (fun t => Some (bw_bwdU t)) 1 3 (one_nonempty_flag bw_nonempty [1%nat; 2%nat; 3%nat]) [false; true] = None.
+Proof.
+  split; [|split; [exact I|split; reflexivity]].
+  exact (C07_roundtrip_reverse bw_size bw_in bw_par 0%nat [1%nat; 2%nat; 3%nat] bw_maps3 bw_fwdU bw_bwdU
+           1%nat 2%nat bw_union_contract eq_refl [false; true] (ex_intro _ [true] eq_refl)).
+Qed.
+
+(* ---- the cache of a verification rule, sizes requested in a non-monotone order ---- *)
+(* class 4 = the atom {a} of size 1: first asked at size 3 on an empty cache (as a product does at
+   the atom's minimum size or above), then at size 0 (as a union does): level 0 is
+   strategy.get_objects(class, 0) = no object, NOT the objects of the size first requested *)
+Example C07_verified_cache_nonvacuous :
+  exists s1 s2,
+    get_objects bw_spec 5 empty_cache 4%nat 3 = Some (s1, bw_atom 1 [0] [false] 3) /\
+    vcons 4%nat (bw_atom 1 [0] [false]) s1 /\
+    get_objects bw_spec 1 s1 4%nat 0 = Some (s2, bw_atom 1 [0] [false] 0).
+Proof.
+  destruct (C07_verified_get_objects bw_spec 4%nat (bw_atom 1 [0] [false]) eq_refl empty_cache 3
+              (vcons_empty 4%nat (bw_atom 1 [0] [false])) ltac:(lia) 5%nat ltac:(vm_compute; lia))
+    as (s1 & E1 & V1).
+  assert (L1 : 3 < clen s1 4%nat).
+  { unfold get_objects in E1. destruct (ensure bw_spec 5 empty_cache 4%nat 3) as [s'|] eqn:E; [|discriminate].
+    inversion E1; subst s'.
+    destruct (C07_verified_cache_levels bw_spec 4%nat (bw_atom 1 [0] [false]) eq_refl 5%nat empty_cache 3 s1
+                (vcons_empty 4%nat (bw_atom 1 [0] [false])) E) as [_ H]. apply H. lia. }
+  destruct (C07_verified_get_objects bw_spec 4%nat (bw_atom 1 [0] [false]) eq_refl s1 0 V1 ltac:(lia) 1%nat
+              ltac:(lia)) as (s2 & E2 & _).
+  exists s1, s2. auto.
+Qed.
+Example C07_verified_cache_values :
+  match get_objects bw_spec 5 empty_cache 4%nat 3 with
+  | Some (s1, d3) =>
+      d3 = [] /\ s1 4%nat = [[]; [([0], [[false]])]; []; []] /\ s1 0%nat = [] /\
+      match get_objects bw_spec 1 s1 4%nat 0, get_objects bw_spec 1 s1 4%nat 1 with
+      | Some (_, d0), Some (_, d1) => d0 = [] /\ d1 = [([0], [[false]])]
+      | _, _ => False
+      end
+  | None => False
+  end.
+Proof. vm_compute. repeat split; reflexivity. Qed.
+Example C07_verified_cache_append_nonvacuous :
+  forall f s' , ensure bw_spec f empty_cache 5%nat 2 = Some s' ->
+    (forall c', c' <> 5%nat -> s' c' = []) /\
+    s' 5%nat = [[]; [([1], [[true]])]; []].
+Proof.
+  intros f s' E.
+  destruct (C07_verified_cache_append bw_spec 5%nat (bw_atom 1 [1] [true]) eq_refl f empty_cache 2 s' E) as [H1 H2].
+  split; [exact H1|]. rewrite H2. reflexivity.
+Qed.
+
 Print Assumptions C07_union_sub_objects.
 Print Assumptions C07_product_sub_objects.
 Print Assumptions C07_union_level.
@@ -797,6 +1177,16 @@ Print Assumptions C07_count_eq_length_product_step.
 Print Assumptions C07_generate_exact.
 Print Assumptions C07_generate_perm.
 Print Assumptions C07_count_eq_length_partial.
+Print Assumptions C07_count_eq_length.
+Print Assumptions C07_count_exact.
+Print Assumptions C07_union_terms_level.
+Print Assumptions C07_product_terms_level.
+Print Assumptions C07_reverse_flag.
+Print Assumptions C07_reverse_refuses.
+Print Assumptions C07_reverse_bijection.
+Print Assumptions C07_verified_cache_append.
+Print Assumptions C07_verified_cache_levels.
+Print Assumptions C07_verified_get_objects.
 Print Assumptions C07_roundtrip_equivalence.
 Print Assumptions C07_roundtrip_reverse.
 Print Assumptions C07_roundtrip_reverse_equivalence.
